@@ -40,6 +40,32 @@ impl Samp for Complex {
     }
 }
 
+/// A user-defined sample type whose serialised size (3 bytes, 24-bit PCM) does not divide the
+/// I/O buffer sizes the file and socket sources use; 4 bytes in memory.
+#[derive(Clone, Copy, Debug, Default, PartialEq)]
+pub struct Pcm24(pub i32);
+impl rustradio::Sample for Pcm24 {
+    type Type = Pcm24;
+    fn size() -> usize {
+        3
+    }
+    fn parse(data: &[u8]) -> rustradio::Result<Pcm24> {
+        if data.len() != 3 {
+            return Err(rustradio::Error::msg("Pcm24 needs 3 bytes"));
+        }
+        let v = (data[0] as i32) | ((data[1] as i32) << 8) | ((data[2] as i8 as i32) << 16);
+        Ok(Pcm24(v))
+    }
+    fn serialize(&self) -> Vec<u8> {
+        vec![self.0 as u8, (self.0 >> 8) as u8, (self.0 >> 16) as u8]
+    }
+}
+impl Samp for Pcm24 {
+    fn bits(&self) -> u64 {
+        self.0 as u32 as u64
+    }
+}
+
 #[derive(Clone, Debug, PartialEq)]
 pub enum InputData {
     U8(Vec<u8>),
